@@ -492,6 +492,7 @@ func (c *handlerCtx) handleCall() {
 				if c.stat.OK() {
 					c.stat = statInternalServerError.Copy(p)
 				}
+				socket.WithContext(nil)(c.output)
 				c.writeReply(c.stat)
 			}
 		}
@@ -537,6 +538,10 @@ func (c *handlerCtx) handleCall() {
 			c.stat = stat
 		}
 		if stat.Code() != CodeConnClosed {
+			// the handling context may be what refused the write (a handler
+			// that outlived the context age): the caller is told so all the
+			// same, a call is not left unanswered on a live connection
+			socket.WithContext(nil)(c.output)
 			c.writeReply(statInternalServerError.Copy(stat.Cause()))
 		}
 		return
